@@ -31,6 +31,9 @@ Further dimensions of (a):
    skipped agents.  On EVERY case of (a) the agents the driver really computes are compared with the independent statement of
    the selection contract (greedy in task order, skip on overlap, stop at the limit): a selected agent that is not computed
    (and so neither committed nor returned) is a violation even though the remaining turns match the sequential loop.
+ * the sequential BASELINE itself: besides the driver's disabled-path loop (which shares the per-agent context clone with the batch
+   path), a plain loop written in the harness - run_turn(caller's context with every field as given, agent id set, live state) - so a
+   slip in code common to both driver paths (fields dropped or altered by the clone) does not cancel out of the comparison.
 """
 from __future__ import annotations
 
@@ -254,8 +257,9 @@ def _cfg(par_on, workers, snap_dir, cadence, kill=False):
     return W.make_cfg(over, snap_dir=snap_dir)
 
 
-def drive(case, scratch, par_on, tasks=None, limit=None, measure=None):
-    """Runs the real driver once.  Returns dict(lines, logs, snaps, w, version, computed, error)."""
+def drive(case, scratch, par_on, tasks=None, limit=None, measure=None, plain=False):
+    """Runs the real driver once (plain=True: the harness's own loop `for task: run_turn(caller's full context specialised to the
+    agent, live state, text)` - no driver code at all).  Returns dict(lines, logs, snaps, w, version, computed, error)."""
     W.reset_globals()
     ex = W.Exec(scratch, "c10")
     ex.activate()
@@ -285,7 +289,14 @@ def drive(case, scratch, par_on, tasks=None, limit=None, measure=None):
         state = fresh_state(case["graphs"], case.get("state_shape", "gba"), case.get("container", "dict"), case.get("registry"))
         tl = tasks if tasks is not None else [(a, "t-" + a) for a in case["agents"]]
         try:
-            res = orch._run_agents_parallel_batch(ctx, state, list(tl))
+            if plain:
+                res = []
+                for a_, text_ in tl:
+                    sub = types.SimpleNamespace(**vars(ctx))      # EVERY field the caller's context carries, value untouched
+                    sub.agent_id = str(a_)
+                    res.append(orch_core.Orchestrator().run_turn(sub, state, text_))
+            else:
+                res = orch._run_agents_parallel_batch(ctx, state, list(tl))
             out["lines"] = [r.line for r in res]
         except Exception as e:  # noqa
             out["error"] = "%s: %s" % (type(e).__name__, e)
@@ -372,7 +383,18 @@ def check_case(case, scratch, limits=None):
         return out + [("standin:sequential-loop-raises", "the driver's disabled-path loop raised %s where the batch returned %r [%s]" % (
             seq["error"], base["lines"], tag))], nruns, []
 
-    def compare(run, label):
+    def compare(run, label, seq=seq, only_new_vs=None):
+        # only_new_vs: report a difference only where the reference `seq` itself departs from that other reference (the
+        # remaining differences are the ones already reported against it)
+        if only_new_vs is not None:
+            seq = dict(seq)
+            run = dict(run)
+            for key in ("lines", "w", "version", "snaps"):
+                if seq[key] == only_new_vs[key]:
+                    run[key] = seq[key]
+            same = {f for f in set(seq["logs"]) | set(only_new_vs["logs"]) if seq["logs"].get(f) == only_new_vs["logs"].get(f)}
+            run["logs"] = {f: v for f, v in run["logs"].items() if f not in same}
+            seq["logs"] = {f: v for f, v in seq["logs"].items() if f not in same}
         for key, sig in (("lines", "results"), ("w", "store"), ("version", "version")):
             if run[key] != seq[key]:
                 out.append(("standin:%s-differ%s" % (sig, label[0]), "%s: batch %r vs sequential %r [%s %s]" % (
@@ -400,6 +422,17 @@ def check_case(case, scratch, limits=None):
             out.append(("standin:snapshot-files-differ%s" % label[0], "snapshot dir %r vs sequential %r [%s %s]" % (run["snaps"], seq["snaps"], tag, label[1])))
 
     compare(base, ("", "limit=32MiB"))
+    # --- independent sequential baseline: "running those turns one after another" stated WITHOUT any driver code - the harness's
+    # own loop hands run_turn the caller's context as it is (every field, falsy values included) with only the agent id
+    # specialised, on the live state.  The driver's disabled path shares its context clone (and anything else the two paths
+    # have in common) with the batch path, so a slip in the shared part moves both sides of the comparison above together.
+    ref = drive(case, scratch, par_on=False, tasks=[(a, "t-" + a) for a in picked], plain=True)
+    nruns += 1
+    if ref["error"]:
+        # stand-in + real apply_changes under the caller's own context raised where the batch over the same tasks returned
+        return out + [("standin:plain-loop-raises", "the plain sequential loop raised %s where the batch returned %r [%s]" % (
+            ref["error"], base["lines"], tag))], nruns, []
+    compare(base, (":vs-plain-loop", "limit=32MiB; reference = plain loop run_turn(full caller context, agent id set)"), seq=ref, only_new_vs=seq)
     # --- staging limits: every class at which behaviour can change; oracle = identical to the 32 MiB run
     lim_set = {1}
     acc = 0
@@ -660,7 +693,10 @@ def run(run: Run) -> None:
                 "4..%d single-graph agents under every overlap pattern (all partitions into same-graph classes + a no-graph class: "
                 "Bell(n+1) per n) x worker limits 2..%d, so selected agents sit at every index relative to the limit%s; in every case "
                 "of (a) the agents really computed must be exactly the batch the selection contract admits (greedy, task order, skip "
-                "on overlap, stop at the limit) - none dropped; "
+                "on overlap, stop at the limit) - none dropped; every case of (a) is ALSO compared with an independent "
+                "sequential baseline that uses no driver code (the harness's loop: run_turn(the caller's context with every field "
+                "as given - falsy now_ms/seed/slice_idx included - and only the agent id set, live state, text)), because the "
+                "driver's disabled path shares its per-agent context clone with the batch path; "
                 "(b) real pipeline on W3; non-trivial = >=2 agents" % (
                     nsel, len(SHAPES), 3 if run.thorough else 2, 6 if run.thorough else 3,
                     "" if run.thorough else " (context/container legs: staging limits 1, total-1, 32MiB only)",
@@ -679,6 +715,8 @@ def run(run: Run) -> None:
                "document different defaults); registry values are mappings, lists, tuples and scalars (no namespaces: the "
                "snapshot view documents their conversion); the view may wrap containers, so only iteration order, length, "
                "lookup and scalar values are compared, not container types")
+    run.assume("the plain sequential loop hands run_turn a copy of the caller's context with agent_id replaced; the contexts enumerated "
+               "carry only fields the driver documents as cloned (cfg, config, now_ms, seed, slice_idx, turn_id)")
     run.assume("batches contain distinct agent ids")
     run.assume("the batch of 4..6 agents has at most one graph per agent (multi-graph, partially overlapping sets are enumerated "
                "for 1..3 agents); the selected batch is the greedy one the selection contract documents, and the caller resubmits "
